@@ -180,7 +180,9 @@ def _dofdist():
                                ([R22], 0, [[0, 1], [1, 2]]), ([R23], 0, [[0, 1, 1], [1, 2, 2]]),
                                ([U2, R3], 1, [0, 1, 0]), ([R3, U2], 0, [0, 1, 1]), ([R2, H3, U2], 1, [0, 0, 1]),
                                ([R2, R22], 1, [[0, 1], [1, 0]]), ([GL23, U2], 0, [0, 0, 0, 1, 1, 1]),
-                               ([GL23], 0, [0, 1, 0, 1, 2, 2])]:
+                               ([GL23], 0, [0, 1, 0, 1, 2, 2])] + T(tier, [], [
+                                   ([R5], 0, [0, 1, 2, 1, 0]), ([U2, R23, U2], 1, [[0, 1, 2], [2, 1, 0]]), ([HP1], 0, [0] * 4 + [1] * 4 + [2] * 4),
+                                   ([R4, R3], 0, [0, 0, 1, 1]), ([R4, R3], 1, [1, 0, 1])]):
             out.append(dict(tgt=tgt, space=space, dofdex=dd, how="explicit"))
             if len(tgt) == 1:
                 out.append(dict(tgt=tgt, space=None, dofdex=dd, how="default-target"))
@@ -221,7 +223,9 @@ def _powerdist():
     def configs(tier):
         out = []
         for tgt, space in [([H3], None), ([H4], None), ([H23], None), ([H33], None), ([LM2], None), ([LM21], None),
-                           ([U2, H4], 1), ([H3, U2], 0), ([H23, R2], 0), ([U2, H23], 1)]:
+                           ([U2, H4], 1), ([H3, U2], 0), ([H23, R2], 0), ([U2, H23], 1)] + T(tier, [], [
+                               ([["RG", [5], [0.3], True]], None), ([["RG", [4, 4], [0.5, 0.5], True]], None), ([["RG", [3, 4], [0.5, 0.7], True]], None),
+                               ([["LM", 3, 3]], None), ([["LM", 3, 1]], None), ([R2, H33, U2], 1), ([["RG", [2, 2, 2], [1., 1., 0.5], True]], None)]):
             out.append(dict(tgt=tgt, space=space, bb=None))
             out.append(dict(tgt=tgt, space=space, bb="explicit"))
         return out
@@ -330,10 +334,20 @@ def _einsum():
         ([R23, U2], {"a": [U2]}, "j,ij->i", None, "j,abj->ab"),
         ([U2, R23], {"a": [R23]}, "i,ji->ij", None, "ab,jab->abj"),
     ]
+    A_THOROUGH = [
+        ([U2, U3, U2], {"a": [U3]}, "j,ijk->ik", None, "j,ijk->ik"),
+        ([U2, U3, U2], {"a": [U2, U2]}, "il,ijk->ljk", None, "il,ijk->ljk"),
+        ([U3], {"a": [U2, U3], "b": [U2, U3]}, "ij,ij,j->i", None, "ij,ij,j->i"),
+        ([U3], {"a": [U2], "b": [U3], "c": [U2]}, "i,j,k,j->ikj", None, "i,j,k,j->ikj"),
+        ([U2, U3], {"a": [U2, U3], "b": [U3]}, "ij,j,ij->ij", ["a", "b"], "ij,j,ij->ij"),
+        ([R22, U2], {"a": [R22]}, "i,ij->j", None, "ab,abj->j"),
+        ([R22], {"a": [U2, R22], "b": [U2]}, "ji,j,i->i", None, "jab,j,ab->ab"),
+        ([U2, U2], {"a": [U2]}, "i,ij->ji", None, "i,ij->ji"),
+    ]
 
     def configs(tier):
         out = []
-        for i, (d, mf, ss, ko, nss) in enumerate(A):
+        for i, (d, mf, ss, ko, nss) in enumerate(A + T(tier, [], A_THOROUGH)):
             for mfc in (False, True):
                 out.append(dict(dom=d, mf=mf, ss=ss, key_order=ko, nss=nss, mf_complex=mfc))
         return out
@@ -444,7 +458,7 @@ def _slice():
         out = []
         for center in (False, True):
             for pd in (True, False):
-                for n, ms in {3: [1, 2, 3], 4: [1, 2, 3], 5: [2]}.items():
+                for n, ms in T(tier, {3: [1, 2, 3], 4: [1, 2, 3], 5: [2]}, {2: [1, 2], 3: [1, 2, 3], 4: [1, 2, 3, 4], 5: [1, 2, 3, 4], 6: [1, 3, 4], 7: [2, 5]}).items():
                     for m in ms:
                         out.append(dict(dom=[["RG", [n], [0.5], False]], new=[m], center=center, pd=pd))
                 out.append(dict(dom=[U4], new=[2], center=center, pd=pd))
@@ -596,7 +610,9 @@ def _fft():
         out = []
         for d, s in [([R2], None), ([R3], None), ([R4], None), ([R23], None), ([H3], None), ([H4], None), ([H23], None),
                      ([U2, R3], 1), ([R3, U2], 0), ([R2, R3], 0), ([R2, R3], 1), ([U2, H23], 1), ([R1], None),
-                     ([R22, R3], 0)]:
+                     ([R22, R3], 0)] + T(tier, [], [([R5], None), ([["RG", [3, 4], [0.3, 0.7], False]], None), ([U2, R23, R2], 1),
+                                                    ([R2, U2, H4], 2), ([["RG", [2, 2, 3], [0.5, 1., 2.], False]], None),
+                                                    ([["RG", [6], [0.1], True]], None), ([R23, R32], 1)]):
             out.append(dict(dom=d, space=s, target="default"))
             out.append(dict(dom=d, space=s, target="explicit"))
         return out
@@ -631,7 +647,9 @@ def _hartley():
     def configs(tier):
         out = []
         for d, s in [([R2], None), ([R3], None), ([R4], None), ([R23], None), ([H3], None), ([H23], None),
-                     ([U2, R3], 1), ([R3, U2], 0), ([R2, R3], 1), ([R1], None), ([R22, R3], 0)]:
+                     ([U2, R3], 1), ([R3, U2], 0), ([R2, R3], 1), ([R1], None), ([R22, R3], 0)] + T(tier, [], [
+                         ([R5], None), ([["RG", [3, 4], [0.3, 0.7], False]], None), ([U2, R23, R2], 1), ([R2, U2, H4], 2),
+                         ([["RG", [2, 2, 3], [0.5, 1., 2.], False]], None), ([R23, R32], 1)]):
             out.append(dict(dom=d, space=s))
         return out
 
@@ -656,7 +674,10 @@ def _sht():
         out = []
         for d, s, t in [([LM1], None, None), ([LM2], None, None), ([LM21], None, None), ([LM1], None, GL23), ([LM2], None, GL35),
                         ([LM1], None, HP1), ([LM2], None, HP1), ([LM21], None, HP1), ([U2, LM1], 1, GL23), ([LM1, R2], 0, HP1),
-                        ([["LM", 3, 3]], None, ["GL", 4, 7]), ([["LM", 3, 2]], None, ["HP", 2]), ([["LM", 0, 0]], None, GL23)]:
+                        ([["LM", 3, 3]], None, ["GL", 4, 7]), ([["LM", 3, 2]], None, ["HP", 2]), ([["LM", 0, 0]], None, GL23)] + T(tier, [], [
+                            ([["LM", 4, 4]], None, None), ([["LM", 4, 2]], None, ["GL", 5, 6]), ([["LM", 4, 4]], None, ["HP", 2]),
+                            ([["LM", 3, 1]], None, None), ([["LM", 3, 0]], None, ["HP", 1]), ([U2, LM2, R2], 1, None),
+                            ([["LM", 5, 5]], None, ["GL", 6, 11]), ([LM2, U2], 0, ["HP", 2])]):
             for cls in ("SHTOperator", "HarmonicTransformOperator"):
                 out.append(dict(dom=d, space=s, tgt=t, cls=cls))
         return out
@@ -719,7 +740,7 @@ def _smooth():
 def _fftshift():
     def configs(tier):
         out = []
-        for d in [[R2], [R3], [R4], [R5], [R23], [R2, R3], [U2, R3], [R32, U2, R4]]:
+        for d in [[R2], [R3], [R4], [R5], [R23], [R2, R3], [U2, R3], [R32, U2, R4]] + T(tier, [], [[R1], [R44], [H23, R3, R2], [["RG", [2, 3, 2], [1., 1., 1.], False]]]):
             rg = [i for i, s in enumerate(d) if s[0] == "RG"]
             opts = []
             if len(rg) == len(d):
@@ -779,7 +800,8 @@ def _mask():
 def _outer():
     def configs(tier):
         out = []
-        for d, f in [([U2], [U3]), ([R2], [R2]), ([R23], [U2]), ([U2], [R23]), ([U2, R2], [U3]), ([U2], [U3, R2]), ([U3], [])]:
+        for d, f in [([U2], [U3]), ([R2], [R2]), ([R23], [U2]), ([U2], [R23]), ([U2, R2], [U3]), ([U2], [U3, R2]), ([U3], [])] + T(tier, [], [
+                ([R23, U2], [R32]), ([], [U3]), ([GL23], [U2, U2]), ([U1], [U1])]):
             for fc in (False, True):
                 out.append(dict(dom=d, fdom=f, f_complex=fc))
         return out
@@ -1125,6 +1147,12 @@ def _interp():
         out.append(dict(dom=[R2, R3], pts=[[p[0] for p in g], [p[1] / 4 for p in g]]))
         out.append(dict(dom=[R22], pts=[[0.1, 0.5, 0.9], [0.05, 0.25, 0.6]]))
         out.append(dict(dom=[R2, R3, R2], pts=[[0.1, 0.6], [0.7, 1.3], [0.9, 0.2]]))
+        if tier != "quick":
+            g = [[x, y] for x in (-0.6, 0., 0.2, 0.5, 0.75, 1.0, 1.3) for y in (-2.5, 0., 0.5, 2.0, 3.9, 4.0, 7.7)]
+            out.append(dict(dom=[R23], pts=[[p[0] for p in g], [p[1] for p in g]]))
+            out.append(dict(dom=[R32], pts=[[p[0] for p in g], [p[1] / 3 for p in g]]))
+            out.append(dict(dom=[["RG", [2, 2, 2], [0.5, 1., 2.], False]], pts=[[0.1, 0.6, 0.9, 0.], [0.7, 1.3, 0.2, 1.], [0.9, 0.2, 3.1, 2.]]))
+            out.append(dict(dom=[R5], pts=[[k * 0.13 - 0.5 for k in range(30)]]))
         return out
 
     def build(c, seed):
@@ -1143,6 +1171,15 @@ def _interp():
     return configs, build
 
 
+def _along_boundary(a, b, dist):
+    """segment a->b runs inside a cell-boundary hyperplane (measure-zero ambiguity: outside the premise)."""
+    for x, y, d in zip(a, b, dist):
+        t = x / d + 0.5
+        if x == y and abs(t - round(t)) < 1e-9:
+            return True
+    return False
+
+
 @register("LOSResponse")
 def _los():
     def configs(tier):
@@ -1151,24 +1188,32 @@ def _los():
         P1 = [-0.5, -0.25, 0., 0.1, 0.25, 0.6, 1.0, 1.25, 1.7]
         s1 = [[a] for a in P1 for b in P1 if a != b]
         e1 = [[b] for a in P1 for b in P1 if a != b]
+        ok_ = lambda a, b, d: a != b and not _along_boundary(a, b, d)
         out.append(dict(dom=[R3], starts=[[p[0] for p in s1]], ends=[[p[0] for p in e1]], sig=None))
         # 2-d (2,3), d = (0.5, 2): box = [-0.25, 0.75] x [-1, 5]
         P2 = [[-0.4, -1.5], [0.0, 0.0], [0.1, 0.3], [0.25, 1.0], [0.5, 4.0], [0.6, 2.2], [0.9, 5.5], [0.3, -1.0], [0.0, 4.0]]
-        pairs = [(a, b) for a in P2 for b in P2 if a != b]
+        pairs = [(a, b) for a in P2 for b in P2 if ok_(a, b, R23[2])]
         out.append(dict(dom=[R23], starts=[[p[0][0] for p in pairs], [p[0][1] for p in pairs]],
                         ends=[[p[1][0] for p in pairs], [p[1][1] for p in pairs]], sig=None))
         # isotropic 2-d grid, diagonals through pixel corners and along grid lines
         R33 = ["RG", [3, 3], [1., 1.], False]
         P3 = [[-0.5, -0.5], [2.5, 2.5], [0., 0.], [2., 2.], [0.5, 0.5], [0.5, 2.5], [-1., 1.], [3., 1.], [1., 1.], [0.2, 1.7]]
-        pairs = [(a, b) for a in P3 for b in P3 if a != b]
+        pairs = [(a, b) for a in P3 for b in P3 if ok_(a, b, [1., 1.])]
         out.append(dict(dom=[R33], starts=[[p[0][0] for p in pairs], [p[0][1] for p in pairs]],
                         ends=[[p[1][0] for p in pairs], [p[1][1] for p in pairs]], sig=None))
         # 3-d
         R222 = ["RG", [2, 2, 2], [1., 0.5, 2.], False]
         P4 = [[0., 0., 0.], [1., 0.5, 2.], [0.3, 0.1, 1.9], [-1., 0.2, 0.5], [1.2, 0.7, -0.5], [0.5, 0.25, 1.]]
-        pairs = [(a, b) for a in P4 for b in P4 if a != b]
+        pairs = [(a, b) for a in P4 for b in P4 if ok_(a, b, [1., 0.5, 2.])]
         out.append(dict(dom=[R222], starts=[[p[0][k] for p in pairs] for k in range(3)],
                         ends=[[p[1][k] for p in pairs] for k in range(3)], sig=None))
+        if tier != "quick":
+            P5 = [[x, y] for x in (-0.5, 0., 0.5, 1.2, 2., 2.5, 3.3) for y in (-0.7, 0.5, 1., 1.5, 2.5)]
+            pairs = [(a, b) for a in P5 for b in P5 if ok_(a, b, [1., 1.])]
+            for lo in range(0, len(pairs), 200):
+                pp = pairs[lo:lo + 200]
+                out.append(dict(dom=[R33], starts=[[p[0][0] for p in pp], [p[0][1] for p in pp]],
+                                ends=[[p[1][0] for p in pp], [p[1][1] for p in pp]], sig=None))
         # parallax errors: no independent closed form -> consistency checks only
         out.append(dict(dom=[R23], starts=[[0.0, 0.1], [0.0, 0.3]], ends=[[0.6, 0.5], [2.2, 4.0]], sig=[0.1, 0.05]))
         return out
@@ -1259,6 +1304,10 @@ def _matprod():
                 out.append(dict(dom=[U2, R3, U2], spaces=sp, flatten=False, mc=mc, sparse=False))
             for sp in ([0], [1]):
                 out.append(dict(dom=[R23, U2], spaces=sp, flatten=False, mc=mc, sparse=False))
+            if tier != "quick":
+                for sp in ([0], [1], [2], [0, 1], [1, 2], [0, 2], [2, 0], [0, 1, 2]):
+                    out.append(dict(dom=[R2, R23, U2], spaces=sp, flatten=False, mc=mc, sparse=False))
+                out.append(dict(dom=[U2, R3, U2], spaces=None, flatten=True, mc=mc, sparse=False))
             # documented: "spaces: int or tuple of int"
             out.append(dict(dom=[U2, U3], spaces=1, flatten=False, mc=mc, sparse=False))
         return out
@@ -1433,7 +1482,7 @@ def _blockdiag():
 def _sandwich():
     def configs(tier):
         out = []
-        for bun in ("fft", "contraction", "diag-complex", "scaling-complex", "scaling-unit", "mask", "einsum-complex"):
+        for bun in ("fft", "contraction", "diag-complex", "scaling-complex", "scaling-unit", "mask", "einsum-complex"):  # same alphabet in both tiers
             for cheese in ("none", "diag", "diag-complex", "sandwich"):
                 out.append(dict(bun=bun, cheese=cheese))
         return out
